@@ -318,25 +318,24 @@ func (e *Evaluator) evalExprNested(expr Expr) (*Cell, error) {
 					e.stackTop.locals[k] = v
 				}
 
+				// the bindings' frame is popped on every way out of the body
+				// (value, block end, error, next/return/break/...)
+				result := NewCell(NewValue(nil))
 				switch body := matchCase.Body.(type) {
 				case *StatementExpr:
-					val, err := e.evalExpr(body.Expr)
-					if err != nil {
-						return nil, err
-					}
-					return val, nil
+					result, err = e.evalExpr(body.Expr)
 				default:
-					err := e.evalStatement(body)
-					if err != nil {
-						return nil, err
-					}
+					err = e.evalStatement(body)
 				}
 
-				if err := e.popFrame(); err != nil {
+				if popErr := e.popFrame(); popErr != nil {
+					return nil, popErr
+				}
+				if err != nil {
 					return nil, err
 				}
 
-				return NewCell(NewValue(nil)), nil
+				return result, nil
 			}
 		}
 		return NewCell(NewValue(nil)), nil
@@ -444,6 +443,13 @@ func (e *Evaluator) callFunction(exp *ExprCall, fn *Cell, args []*Value) (*Cell,
 		}
 
 		err := e.evalStatement(f.Body)
+
+		// the callee's frame is popped however the body was left (return, end
+		// of body, next, exit, error)
+		if popErr := e.popFrame(); popErr != nil {
+			return nil, popErr
+		}
+
 		var retVal *Value
 		if err == errReturn {
 			retVal = e.returnVal
@@ -451,10 +457,6 @@ func (e *Evaluator) callFunction(exp *ExprCall, fn *Cell, args []*Value) (*Cell,
 			return nil, err
 		} else {
 			retVal = nil
-		}
-
-		if err := e.popFrame(); err != nil {
-			return nil, err
 		}
 
 		if retVal != nil {
